@@ -14,7 +14,7 @@ def boot():
     global _booted, PKGDIR, PRISTINE
     if _booted:
         return
-    sys.setrecursionlimit(20000)
+    sys.setrecursionlimit(6000)
     import decimal
     global CTX0
     CTX0 = decimal.getcontext().copy()
